@@ -4,8 +4,7 @@ mkdir -p /tmp/seedlog
 for item in $1; do
   P=${item%%:*}; K=${item##*:}; WT=/tmp/wt_$P
   (cd $WT && git checkout -q -- . && git apply _seed/patch$K.diff) || { echo "$item: patch failed" >> /tmp/seedlog/summary.txt; continue; }
-  cp -r /verif/evidence /tmp/seedlog/.ev_backup 2>/dev/null
-  (cd /verif && VERIF_REPO=$WT ./check $P > /tmp/seedlog/${P}_$K.log 2>&1; echo "$item rc=$? $(grep -c '^VIOLATION' /tmp/seedlog/${P}_$K.log) violations; $(tail -1 /tmp/seedlog/${P}_$K.log | cut -c1-200)" >> /tmp/seedlog/summary.txt)
+  (cd /verif && VERIF_OUT=/tmp/seedout VERIF_REPO=$WT ./check $P > /tmp/seedlog/${P}_$K.log 2>&1; echo "$item rc=$? $(grep -c '^VIOLATION' /tmp/seedlog/${P}_$K.log) violations; $(tail -1 /tmp/seedlog/${P}_$K.log | cut -c1-200)" >> /tmp/seedlog/summary.txt)
   (cd $WT && git checkout -q -- .)
 done
 echo "batch done: $1" >> /tmp/seedlog/summary.txt
